@@ -1,3 +1,486 @@
 package main
 
-func driverMain() {}
+import (
+	"context"
+	"encoding/json"
+	"fmt"
+	"os"
+	"os/exec"
+	"path/filepath"
+	"regexp"
+	"sort"
+	"strconv"
+	"strings"
+	"time"
+
+	"verifharness/vhlib"
+)
+
+const traceSet = "trace=openat,write,pwrite64,lseek,rename,renameat,renameat2,unlink,unlinkat,ftruncate,mkdir,mkdirat,fsync,fdatasync"
+
+// abstract protocol token of an op (what the Coq model consumes)
+var reSegFile = regexp.MustCompile(`/final/[^/]+/[^/]+/(\d+)/(.*)$`)
+
+func token(o fsop) string {
+	m := reSegFile.FindStringSubmatch(o.Path)
+	p2 := reSegFile.FindStringSubmatch(o.Path2)
+	switch {
+	case strings.HasSuffix(o.Path, "/progress.log"):
+		return ""
+	case strings.HasSuffix(o.Path, "segmeta.json") && o.Kind == "write":
+		// one line per rotated segment: find its suffix in the payload
+		mm := regexp.MustCompile(`/final/[^/]+/[^/]+/(\d+)/`).FindSubmatch(o.Data)
+		if mm != nil {
+			return "SegmetaAppend " + string(mm[1])
+		}
+		return "Other"
+	case o.Kind == "rename" && p2 != nil && strings.HasSuffix(p2[2], ".sfm"):
+		return "SfmRename " + p2[1]
+	case o.Kind == "rename" && p2 != nil && strings.HasSuffix(p2[2], ".sst"):
+		return "SstRename " + p2[1]
+	case m == nil:
+		return "Other"
+	}
+	s, f := m[1], m[2]
+	switch {
+	case strings.HasSuffix(f, ".sfm.tmp"):
+		if o.Kind == "write" {
+			return "SfmTmpWrite " + s + " " + numBlocks(o.Data)
+		}
+		if o.Kind == "trunc" || o.Kind == "creat" {
+			return "SfmTmpTrunc " + s
+		}
+		return "Other"
+	case strings.HasSuffix(f, ".sfm"):
+		if o.Kind == "trunc" {
+			return "SfmTruncate " + s
+		}
+		if o.Kind == "write" {
+			return "SfmWriteInPlace " + s + " " + numBlocks(o.Data)
+		}
+		return "Other"
+	case strings.HasSuffix(f, ".bsu"):
+		if o.Kind == "write" || o.Kind == "pwrite" {
+			return "BsuAppend " + s
+		}
+		return "Other"
+	case strings.HasSuffix(f, ".sst.tmp"):
+		if o.Kind == "write" {
+			return "SstWrite " + s
+		}
+		return "Other"
+	default:
+		if o.Kind == "write" || o.Kind == "pwrite" || o.Kind == "trunc" || o.Kind == "ftruncate" {
+			return "ColWrite " + s
+		}
+		return "Other"
+	}
+}
+
+var reNumBlocks = regexp.MustCompile(`"numBlocks":(\d+)`)
+
+func numBlocks(data []byte) string {
+	m := reNumBlocks.FindSubmatch(data)
+	if m == nil {
+		return "0"
+	}
+	return string(m[1])
+}
+
+// the history with the observed numbers of column writes / sst writes per flush, derived from the
+// complete token sequence: a flush is the maximal run "ColWrite* BsuAppend SstWrite* SstRename"
+func observedHistory(h history, toks []string) string {
+	var items []string
+	i := 0
+	var prot []string
+	for _, t := range toks {
+		if t != "" && t != "Other" {
+			prot = append(prot, t)
+		}
+	}
+	for _, st := range h.Steps {
+		if st.Kind == "rotate" {
+			items = append(items, "Rotate")
+			// skip the rotation's tokens (sfm rewrites + segmeta line)
+			for i < len(prot) && !strings.HasPrefix(prot[i], "ColWrite") {
+				i++
+			}
+			continue
+		}
+		m, n := 0, 0
+		for i < len(prot) && strings.HasPrefix(prot[i], "ColWrite") {
+			m++
+			i++
+		}
+		if i < len(prot) && strings.HasPrefix(prot[i], "BsuAppend") {
+			i++
+		}
+		for i < len(prot) && strings.HasPrefix(prot[i], "SstWrite") {
+			n++
+			i++
+		}
+		// SstRename + sfm ops
+		for i < len(prot) && !strings.HasPrefix(prot[i], "ColWrite") && !strings.HasPrefix(prot[i], "SfmTmpTrunc") && !strings.HasPrefix(prot[i], "SfmTruncate") {
+			i++
+		}
+		for i < len(prot) && (strings.HasPrefix(prot[i], "Sfm")) {
+			i++
+			if strings.HasPrefix(prot[i-1], "SfmRename") || strings.HasPrefix(prot[i-1], "SfmWriteInPlace") {
+				break
+			}
+		}
+		items = append(items, fmt.Sprintf("Flush %d %d", m, n))
+	}
+	return vhlib.CoqList(items)
+}
+
+func run(timeout time.Duration, name string, args ...string) (int, string) {
+	ctx, cancel := context.WithTimeout(context.Background(), timeout)
+	defer cancel()
+	cmd := exec.CommandContext(ctx, name, args...)
+	out, err := cmd.CombinedOutput()
+	if ctx.Err() != nil {
+		return 124, string(out)
+	}
+	if err != nil {
+		if ee, ok := err.(*exec.ExitError); ok {
+			return ee.ExitCode(), string(out)
+		}
+		return 1, string(out)
+	}
+	return 0, string(out)
+}
+
+func genHistory(r *vhlib.Rng) history {
+	h := history{Index: "idx"}
+	n := r.Range(3, 6)
+	for i := 0; i < n; i++ {
+		if i > 0 && r.Chance(30) {
+			h.Steps = append(h.Steps, step{Kind: "rotate"})
+		}
+		h.Steps = append(h.Steps, step{Kind: "flush", N: r.Range(1, 3)})
+	}
+	if r.Chance(40) {
+		h.Steps = append(h.Steps, step{Kind: "rotate"})
+	}
+	return h
+}
+
+func intsEq(a, b []int) bool {
+	if len(a) != len(b) {
+		return false
+	}
+	for i := range a {
+		if a[i] != b[i] {
+			return false
+		}
+	}
+	return true
+}
+
+func driverMain() {
+	cfg := vhlib.ParseFlags()
+	sum := vhlib.NewSummary("one case = one crash point: the file-system state after the first k completed system calls of a traced ingest/flush/rotate history (strace of the real worker, replayed into a fresh directory at the same path), followed by a real restart + `*` + `stats count` + further ingest; " +
+		"quick: stratified sample of k (every protocol token boundary of sfm/bsu/sst/segmeta + random), thorough: every k; non-trivial = at least one flush had started; distinct by (history, k)")
+	r := vhlib.NewRng(cfg.Seed)
+	self, _ := os.Executable()
+	nh := 2
+	if cfg.Thorough() {
+		nh = 5
+	}
+	caseShard := 0
+	for hi := 0; hi < nh; hi++ {
+		h := genHistory(r.Fork())
+		if hi == 0 {
+			h = history{Index: "idx", Steps: []step{{"flush", 2}, {"flush", 1}, {"rotate", 0}, {"flush", 2}}}
+		}
+		root, _ := filepath.Abs(filepath.Join(cfg.Out, fmt.Sprintf("h%d", hi)))
+		_ = os.MkdirAll(root, 0o755)
+		hf := filepath.Join(root, "history.json")
+		hb, _ := json.Marshal(h)
+		_ = os.WriteFile(hf, hb, 0o644)
+		run1 := filepath.Join(root, "run")
+		_ = os.MkdirAll(run1, 0o755)
+		tracef := filepath.Join(root, "trace.txt")
+		rc, out := run(120*time.Second, "strace", "-f", "-y", "-xx", "-s", "2000000", "-o", tracef, "-e", traceSet, self, "worker", "ingest", run1, hf)
+		if rc != 0 {
+			sum.HarnessError(fmt.Sprintf("traced ingest worker rc=%d: %s", rc, tail(out)))
+			continue
+		}
+		ops, err := parseTrace(tracef, run1)
+		if err != nil || len(ops) == 0 {
+			sum.HarnessError(fmt.Sprintf("trace parse: %v (%d ops)", err, len(ops)))
+			continue
+		}
+		// sanity of the replayer: replaying everything must reproduce the worker's own final state
+		finalIDs, ok := recoverAt(self, run1, hf, ops, len(ops), sum, h)
+		if !ok {
+			continue
+		}
+		_ = finalIDs
+		toks := make([]string, len(ops))
+		for i, o := range ops {
+			toks[i] = token(o)
+		}
+		// crash points
+		var ks []int
+		if cfg.Thorough() {
+			for k := 0; k <= len(ops); k++ {
+				ks = append(ks, k)
+			}
+		} else {
+			pick := map[int]bool{0: true, len(ops): true}
+			for i, t := range toks {
+				if strings.HasPrefix(t, "Sfm") || strings.HasPrefix(t, "Bsu") || strings.HasPrefix(t, "SstRename") || strings.HasPrefix(t, "Segmeta") {
+					pick[i] = true
+					pick[i+1] = true
+				}
+			}
+			for len(pick) < 36 && len(pick) < len(ops) {
+				pick[r.Intn(len(ops)+1)] = true
+			}
+			for k := range pick {
+				ks = append(ks, k)
+			}
+			sort.Ints(ks)
+			if len(ks) > 36 {
+				// keep the budget: thin out evenly (the sfm/bsu boundaries stay over-represented)
+				var ks2 []int
+				for i := 0; i < 36; i++ {
+					ks2 = append(ks2, ks[i*len(ks)/36])
+				}
+				ks = ks2
+			}
+		}
+		if v := os.Getenv("C07_ONLY_K"); v != "" {
+			kk, _ := strconv.Atoi(v)
+			ks = []int{kk}
+			for i := kk - 6; i < kk+2 && i < len(ops); i++ {
+				if i >= 0 {
+					fmt.Fprintf(os.Stderr, "op %d: %s %s -> %s [%s]\n", i, ops[i].Kind, ops[i].Path, ops[i].Path2, toks[i])
+				}
+			}
+		}
+		// protocol-order case: the whole token sequence must be ops_of (history with observed write counts)
+		{
+			var tl []string
+			for _, t := range toks {
+				if t != "" && t != "Other" {
+					tl = append(tl, "("+t+")")
+				}
+			}
+			defs := "Open Scope nat_scope.\nDefinition hist : list hstep := " + observedHistory(h, toks) + ".\nDefinition observed : list fop := " + vhlib.CoqListNL(tl) + ".\n"
+			sum.WriteCaseFile(cfg.Out, fmt.Sprintf("cases_protocol_%d", hi), "From SigM Require Import Base FlushProto FlushProtoCheck.\n", defs, "if check_protocol hist observed then [] else [O]", 1)
+		}
+		var cases []string
+		for _, k := range ks {
+			obs, ok := recoverAt(self, run1, hf, ops, k, sum, h)
+			if !ok {
+				continue
+			}
+			// model case: tokens of the prefix (protocol ops only) and the observed visible blocks
+			var tl []string
+			for _, t := range toks[:k] {
+				if t != "" && t != "Other" {
+					tl = append(tl, "("+t+")")
+				}
+			}
+			cases = append(cases, fmt.Sprintf("(%s, %s)", vhlib.CoqList(tl), blocksCoq(h, obs)))
+			if len(cases) >= 200 {
+				writeCases(cfg, sum, &caseShard, h, cases)
+				cases = nil
+			}
+		}
+		writeCases(cfg, sum, &caseShard, h, cases)
+		sum.Sample(map[string]interface{}{"history": h, "syscalls": len(ops), "crash_points": len(ks)})
+		if os.Getenv("C07_ONLY_K") != "" {
+			break
+		}
+		_ = os.RemoveAll(run1)
+	}
+	sum.Write(cfg.Out)
+}
+
+func tail(s string) string {
+	if len(s) > 400 {
+		return s[len(s)-400:]
+	}
+	return s
+}
+
+// events of each flush step, as id ranges; block numbering: (segment index, block index) in ingest order
+type blk struct{ Seg, Blk, From, N int }
+
+func blocksOf(h history) []blk {
+	var out []blk
+	seg, b, next := 0, 0, 1
+	for _, st := range h.Steps {
+		switch st.Kind {
+		case "flush":
+			out = append(out, blk{seg, b, next, st.N})
+			next += st.N
+			b++
+		case "rotate":
+			if b > 0 {
+				seg++
+				b = 0
+			}
+		}
+	}
+	return out
+}
+
+// observed ids -> list of fully visible blocks (as "(seg,blk)"), partial blocks reported separately
+func blocksCoq(h history, ids []int) string {
+	set := map[int]bool{}
+	for _, i := range ids {
+		set[i] = true
+	}
+	var items []string
+	for _, b := range blocksOf(h) {
+		all := true
+		for i := 0; i < b.N; i++ {
+			all = all && set[b.From+i]
+		}
+		if all {
+			items = append(items, fmt.Sprintf("(%d,%d)", b.Seg, b.Blk))
+		}
+	}
+	return vhlib.CoqList(items)
+}
+
+func writeCases(cfg vhlib.Config, sum *vhlib.Summary, shard *int, h history, cases []string) {
+	if len(cases) == 0 {
+		return
+	}
+	defs := "Open Scope nat_scope.\nDefinition cases : list (list fop * list (nat * nat)) := " + vhlib.CoqListNL(cases) + ".\n"
+	sum.WriteCaseFile(cfg.Out, fmt.Sprintf("cases_%d", *shard), "From SigM Require Import Base FlushProto FlushProtoCheck.\n", defs, "check_crash_cases cases", len(cases))
+	*shard++
+}
+
+// replay the first k ops at the original path, restart the real code on it, evaluate the oracle
+func recoverAt(self, run1, hf string, ops []fsop, k int, sum *vhlib.Summary, h history) ([]int, bool) {
+	_ = os.RemoveAll(run1)
+	_ = os.MkdirAll(run1, 0o755)
+	for _, o := range ops[:k] {
+		if err := applyOp(o); err != nil {
+			sum.HarnessError(fmt.Sprintf("replay op %d (%s %s): %v", o.Line, o.Kind, o.Path, err))
+			return nil, false
+		}
+	}
+	// which steps had completed (markers are written by the worker after each step returns)
+	done := -1
+	started := false
+	if pb, err := os.ReadFile(filepath.Join(run1, "progress.log")); err == nil {
+		for _, l := range strings.Split(string(pb), "\n") {
+			if strings.HasPrefix(l, "DONE ") {
+				done, _ = strconv.Atoi(strings.TrimPrefix(l, "DONE "))
+			}
+			if l == "START" {
+				started = true
+			}
+		}
+	}
+	total := 0
+	for _, st := range h.Steps {
+		total += st.N
+	}
+	of := filepath.Join(filepath.Dir(run1), "recovered.json")
+	_ = os.Remove(of)
+	rc, out := run(90*time.Second, self, "worker", "recover", run1, hf, of, strconv.Itoa(total+1))
+	var rec recovered
+	ob, _ := os.ReadFile(of)
+	_ = json.Unmarshal(ob, &rec)
+	sum.Eval(fmt.Sprintf("%s/%d", hf, k), started)
+	sum.Count("crash_points")
+	c := map[string]interface{}{"history": h, "crash_after_syscalls": k, "steps_completed": done + 1}
+	if rc != 0 || !rec.StartupOK {
+		sum.Fail("startup_fails_after_crash", fmt.Sprintf("restart after crash point %d: rc=%d err=%q %s", k, rc, rec.Err, tail(out)), c)
+		return nil, true
+	}
+	// expected: events of completed flush steps; in-progress = the next flush step
+	var completed, inprog []int
+	next := 1
+	for i, st := range h.Steps {
+		if st.Kind != "flush" {
+			continue
+		}
+		for j := 0; j < st.N; j++ {
+			if i <= done {
+				completed = append(completed, next+j)
+			}
+		}
+		if i > done && inprog == nil && started {
+			// the first not-yet-completed flush step may be in progress (rotate steps in between do not add events)
+			for j := 0; j < st.N; j++ {
+				inprog = append(inprog, next+j)
+			}
+		}
+		next += st.N
+	}
+	got := map[int]int{}
+	for _, id := range rec.IDs {
+		got[id]++
+	}
+	if rec.Err != "" {
+		sum.Fail("query_error_after_crash", fmt.Sprintf("crash point %d: match-all returned error %q", k, rec.Err), c)
+	}
+	if len(rec.Bad) > 0 {
+		sum.Fail("garbage_after_crash", fmt.Sprintf("crash point %d: rows with wrong content: %v", k, rec.Bad), c)
+	}
+	for id, n := range got {
+		if n > 1 {
+			sum.Fail("event_duplicated_after_crash", fmt.Sprintf("crash point %d: id %d returned %d times", k, id, n), c)
+			break
+		}
+	}
+	for _, id := range completed {
+		if got[id] == 0 {
+			sum.Fail("completed_flush_lost_after_crash", fmt.Sprintf("crash point %d (%d steps completed): event %d of a completed flush is not searchable after restart; visible=%v", k, done+1, id, rec.IDs), c)
+			break
+		}
+	}
+	allowed := map[int]bool{}
+	for _, id := range completed {
+		allowed[id] = true
+	}
+	nIn := 0
+	for _, id := range inprog {
+		allowed[id] = true
+		if got[id] > 0 {
+			nIn++
+		}
+	}
+	for id := range got {
+		if !allowed[id] {
+			sum.Fail("unflushed_event_visible_after_crash", fmt.Sprintf("crash point %d: event %d visible but its flush had not started", k, id), c)
+			break
+		}
+	}
+	if nIn != 0 && nIn != len(inprog) {
+		sum.Fail("flush_in_progress_partially_visible", fmt.Sprintf("crash point %d: %d of %d events of the flush in progress are visible", k, nIn, len(inprog)), c)
+	}
+	if rec.CountErr != "" {
+		sum.Fail("query_error_after_crash", fmt.Sprintf("crash point %d: stats count error %q", k, rec.CountErr), c)
+	} else if int(rec.Count) != len(rec.IDs) && !(rec.Count <= 0 && len(rec.IDs) == 0) {
+		sum.Fail("stale_segment_stats_after_crash", fmt.Sprintf("crash point %d: `* | stats count` = %d but match-all returns %d events", k, rec.Count, len(rec.IDs)), c)
+	}
+	if os.Getenv("C07_TABLE") != "" {
+		t := ""
+		if k > 0 {
+			t = token(ops[k-1])
+		}
+		fmt.Fprintf(os.Stderr, "k=%d last=%q done=%d ids=%v count=%d\n", k, t, done+1, rec.IDs, rec.Count)
+	}
+	// later ingestion must not overwrite recovered data
+	if rec.AfterErr != "" {
+		sum.Fail("ingest_fails_after_recovery", fmt.Sprintf("crash point %d: %s", k, rec.AfterErr), c)
+	} else {
+		want := append(append([]int{}, rec.IDs...), total+1, total+2)
+		sort.Ints(want)
+		if !intsEq(want, rec.After) {
+			sum.Fail("later_ingest_disturbs_recovered_data", fmt.Sprintf("crash point %d: visible before %v, after ingesting 2 more events %v", k, rec.IDs, rec.After), c)
+		}
+	}
+	return rec.IDs, true
+}
